@@ -321,6 +321,69 @@ func c09R5(c *Ctx, r *Report) {
 	if len(wn) < 3 {
 		r.Fail("C09-R5", "sync-xattr writers", "-", fmt.Sprintf("only %d functions found that hand the sync xattr to the bucket", len(wn)))
 	}
+	// The recorded body hash (_sync.value_crc32c) is only ever filled in by the server through macro expansion: an in-memory
+	// document that has just been written does not know it. A writer of the sync xattr therefore either expands value_crc32c too,
+	// or sends back sync data it read from the bucket in the same operation (whose recorded hash is the stored one).
+	for _, name := range wn {
+		f := byName[name]
+		stampsCrc := false
+		stampIn := func(h *ssa.Function) bool {
+			for _, g := range append([]*ssa.Function{h}, c15Lits(h)...) {
+				for _, call := range c.CallsThroughHelpers(g, 1, nameIs("db.xattrCrc32cPath", "db.macroExpandSpec")) {
+					if a := call.Common().Args; len(a) > 0 {
+						if s, ok := constString(a[0]); ok && s == "_sync" {
+							return true
+						}
+					}
+				}
+			}
+			return false
+		}
+		stampsCrc = stampIn(f)
+		if !stampsCrc {
+			for _, prm := range f.Params {
+				if namedOf(prm.Type()) == "MutateInOptions" {
+					callers, all := 0, true
+					for _, g := range c.ScopeFuncs() {
+						if len(c.Calls(g, false, nameIs(name))) > 0 {
+							callers++
+							if !stampIn(TopLevel(g)) {
+								all = false
+							}
+						}
+					}
+					stampsCrc = callers > 0 && all
+				}
+			}
+		}
+		readsHere := false
+		for _, g := range append([]*ssa.Function{f}, c15Lits(f)...) {
+			if len(c.Calls(g, false, nameHasSuffix(".GetWithXattrs", ".GetXattrs", ".GetDocument", ".GetDocumentWithRaw", ".GetDocWithXattrs"))) > 0 {
+				readsHere = true
+			}
+			if g.Parent() != nil {
+				// an update callback of the bucket's read-modify-write receives the stored xattrs
+				for _, call := range c.Calls(f, false, nameHasSuffix(".WriteUpdateWithXattrs")) {
+					for _, a := range call.Common().Args {
+						if mc, ok := unwrap(a).(*ssa.MakeClosure); ok && mc.Fn == ssa.Value(g) {
+							readsHere = true
+						}
+						if ld, ok := unwrap(a).(*ssa.UnOp); ok {
+							_ = ld
+						}
+					}
+				}
+			}
+		}
+		if !readsHere {
+			// the callback may be bound to a local first (writeUpdateFunc := func…; WriteUpdateWithXattrs(…, writeUpdateFunc))
+			if len(c.Calls(f, false, nameHasSuffix(".WriteUpdateWithXattrs"))) > 0 && len(f.AnonFuncs) > 0 {
+				readsHere = true
+			}
+		}
+		r.Check("C09-R5", "fn="+name+" writes=_sync body-hash=expanded|read-in-same-operation", c.Pos(writers[f].Pos()), stampsCrc || readsHere,
+			"the recorded body hash it sends is the server's", "this function rewrites the sync xattr from an in-memory document it did not read in the same operation and does not macro-expand _sync.value_crc32c: the recorded body hash becomes stale, and the next mutation that moves the CAS without re-stamping _sync.cas (resync, an SDK touch) makes the gateway import its own write as a new revision")
+	}
 	// event CAS: feed-triggered rewrites
 	for _, name := range []string{"(*db.DatabaseCollectionWithUser).MigrateAttachmentMetadata"} {
 		fn := c.Func(name)
